@@ -444,6 +444,22 @@ impl Run<'_, '_> {
             self.ctx.label("rollback:again-to-the-same-checkpoint");
         }
         let pre = self.battery();
+        // The read forms of NODE / EDGE / EMBED in the battery empty the router's query cache, so
+        // on their own the battery's SELECT / SIMILAR / NEIGHBORS / PATH statements are never
+        // answered from it. These are read once more, back to back, right before the rollback
+        // and first thing after it: an answer cached before the rollback must not survive it.
+        let cacheable: Vec<String> = pre
+            .answers
+            .keys()
+            .filter(|t| {
+                let k = stmt_kind(t);
+                k.starts_with("select") || k.starts_with("similar") || k.starts_with("neighbors") || k.starts_with("path")
+            })
+            .cloned()
+            .collect();
+        for t in &cacheable {
+            let _ = self.w.exec(t);
+        }
         let text = format!("ROLLBACK TO '{target}'");
         if let Err(e) = self.w.exec(&text) {
             self.ctx.fail(
@@ -453,7 +469,14 @@ impl Run<'_, '_> {
             self.stop = true;
             return Ok(());
         }
-        let post = self.battery();
+        let early: Vec<(String, Ans)> = cacheable.iter().map(|t| (t.clone(), crate::world::canon(&self.w.exec(t)))).collect();
+        let mut post = self.battery();
+        for (t, a) in early {
+            // the answer given first after the rollback is the one judged
+            if let Some(slot) = post.answers.get_mut(&t) {
+                slot.1 = a;
+            }
+        }
         // how much the rollback had to undo: engines whose answers differed from the checkpoint
         let mut engines_differ = BTreeSet::new();
         for (text, (eng, want)) in &self.cps[idx].battery.answers {
@@ -641,7 +664,12 @@ pub fn run(case: &Case, ctx: &mut CaseCtx) -> Result<(), Fail> {
             _ => {},
         }
     }
-    let world = World::new(case.max_cp as usize)?;
+    // in a quarter of the programs the checkpoint statements go through the async entry point (its ROLLBACK TO is a separate function)
+    let via_async = case.last & 6 == 6;
+    let world = if via_async { World::new_async(case.max_cp as usize)? } else { World::new(case.max_cp as usize)? };
+    if via_async {
+        ctx.label(if case.max_cp % 2 == 1 { "entry:async, query cache on" } else { "entry:async" });
+    }
     ctx.label(if case.gv_only { "program:gv-only" } else { "program:all-engines" });
     ctx.label(format!("limit:{}", case.max_cp));
     let mut run = Run {
